@@ -40,6 +40,40 @@ type Seg struct {
 	Param bool
 	S     string // literal text; with Param: a literal prefix inside the segment ("key=" in key={value}, "v" in v{ver})
 	N     string // placeholder name
+	// Comp: a composite segment ({a}.{b}, {id}-cancel): pieces (literals and placeholders), the first a placeholder
+	Comp []Seg
+}
+
+func (s Seg) text(brace bool) string {
+	if len(s.Comp) > 0 {
+		t := ""
+		for _, p := range s.Comp {
+			t += p.text(brace)
+		}
+		return t
+	}
+	if !s.Param {
+		return s.S
+	}
+	if brace {
+		return s.S + "{" + s.N + "}"
+	}
+	return s.S + "{}"
+}
+
+// params: the placeholder names of the segment
+func (s Seg) params() []string {
+	if len(s.Comp) > 0 {
+		var out []string
+		for _, p := range s.Comp {
+			out = append(out, p.params()...)
+		}
+		return out
+	}
+	if s.Param {
+		return []string{s.N}
+	}
+	return nil
 }
 
 // Op is one operation: method (upper case) + template.
@@ -68,11 +102,7 @@ func (o Op) Template() string {
 	var b strings.Builder
 	for _, s := range o.Segs {
 		b.WriteByte('/')
-		if s.Param {
-			b.WriteString(s.S + "{" + s.N + "}")
-		} else {
-			b.WriteString(s.S)
-		}
+		b.WriteString(s.text(true))
 	}
 	if o.Trail {
 		b.WriteByte('/')
@@ -86,10 +116,10 @@ func (o Op) Shape() string {
 	b.WriteString(o.Method + " ")
 	for _, s := range o.Segs {
 		b.WriteByte('/')
-		if s.Param {
-			b.WriteString(s.S + "{}")
+		if len(s.Comp) > 0 {
+			b.WriteString("{}") // the router knows a composite segment as one placeholder
 		} else {
-			b.WriteString(s.S)
+			b.WriteString(s.text(false))
 		}
 	}
 	if o.Trail || len(o.Segs) == 0 {
@@ -117,7 +147,17 @@ func (a API) JSON() M {
 	for _, o := range a.Ops {
 		segs := make([]M, 0, len(o.Segs))
 		for _, s := range o.Segs {
-			if s.Param && s.S != "" {
+			if len(s.Comp) > 0 {
+				parts := []M{}
+				for _, p := range s.Comp {
+					if p.Param {
+						parts = append(parts, M{"k": "param", "s": []int{}, "n": trace.B(p.N)})
+					} else {
+						parts = append(parts, M{"k": "lit", "s": trace.B(p.S), "n": []int{}})
+					}
+				}
+				segs = append(segs, M{"k": "comp", "s": []int{}, "n": []int{}, "parts": parts})
+			} else if s.Param && s.S != "" {
 				segs = append(segs, M{"k": "pre", "s": trace.B(s.S), "n": trace.B(s.N)})
 			} else if s.Param {
 				segs = append(segs, M{"k": "param", "s": []int{}, "n": trace.B(s.N)})
@@ -142,7 +182,18 @@ func apiFromJSON(v any) API {
 		o := Op{Method: trace.Str(om["method"]), Trail: drv.Bool(om["trail"])}
 		for _, sv := range drv.List(om["segs"]) {
 			sm := drv.Map(sv)
-			if k := drv.Str(sm["k"]); k == "param" || k == "pre" {
+			if k := drv.Str(sm["k"]); k == "comp" {
+				var cs Seg
+				for _, pv := range drv.List(sm["parts"]) {
+					pm := drv.Map(pv)
+					if drv.Str(pm["k"]) == "param" {
+						cs.Comp = append(cs.Comp, Seg{Param: true, N: trace.Str(pm["n"])})
+					} else {
+						cs.Comp = append(cs.Comp, Seg{S: trace.Str(pm["s"])})
+					}
+				}
+				o.Segs = append(o.Segs, cs)
+			} else if k == "param" || k == "pre" {
 				o.Segs = append(o.Segs, Seg{Param: true, S: trace.Str(sm["s"]), N: trace.Str(sm["n"])})
 			} else {
 				o.Segs = append(o.Segs, Seg{S: trace.Str(sm["s"])})
@@ -163,8 +214,8 @@ func (a API) Swagger() []byte {
 		}
 		params := []any{}
 		for _, s := range o.Segs {
-			if s.Param {
-				params = append(params, map[string]any{"name": s.N, "in": "path", "required": true, "type": "string"})
+			for _, n := range s.params() {
+				params = append(params, map[string]any{"name": n, "in": "path", "required": true, "type": "string"})
 			}
 		}
 		paths[t][strings.ToLower(o.Method)] = map[string]any{
@@ -347,11 +398,16 @@ func wellFormed(ops []Op) bool {
 		names := map[string]bool{}
 		anchored, needsAnchor := false, false
 		for _, s := range o.Segs {
-			if s.Param {
-				if names[s.N] {
+			for _, n := range s.params() {
+				if names[n] {
 					return false
 				}
-				names[s.N] = true
+				names[n] = true
+			}
+			if len(s.Comp) > 0 {
+				anchored = true
+			}
+			if s.Param {
 				// denco treats a key as parameterised only when it contains "/:" or "=:": a placeholder that neither
 				// opens its segment nor follows '=' needs another one in the template that does
 				if s.S == "" || strings.HasSuffix(s.S, "=") {
@@ -650,6 +706,44 @@ func generate(c *drv.Ctx) {
 		}
 	}
 
+	// (viii) composite segments ({a}.{b}, {id}-cancel, {a}-{b}-{c}): named deviation CompositeSegmentsOpen - what is
+	// demanded is totality (no panic), one handler at most, of the right method, whose template fits at least coarsely,
+	// and that a strict fit is handled
+	{
+		comp := func(ps ...Seg) Seg { return Seg{Comp: ps} }
+		ops := []Op{
+			{Method: "GET", Segs: []Seg{lit("f"), comp(par("a"), lit("."), par("b"))}},
+			{Method: "GET", Segs: []Seg{lit("g"), comp(par("id"), lit("-cancel"))}},
+			{Method: "PUT", Segs: []Seg{lit("h"), comp(par("a"), lit("-"), par("b"), lit("-"), par("c"))}},
+			{Method: "GET", Segs: []Seg{lit("f"), comp(par("a"), lit("."), par("b")), lit("x"), par("c")}},
+			{Method: "GET", Segs: []Seg{lit("f"), lit("lit.x")}},
+			{Method: "POST", Segs: []Seg{lit("g"), par("id")}}}
+		vals := []string{"x.y", "x.y.z", "xy", ".y", "x.", ".", "..", "x%2Ey", "x%2Ey.z", "%2E", "p-cancel", "p", "-cancel", "p-cancel-cancel",
+			"p-cancelx", "a-b-c", "a-b", "a--c", "-", "--", "a-b-c-d", "-b-c", ":.:", "lit.x", "a.b%2Fc", "%25.%25"}
+		for bi, b := range []Base{baseSpellings[0], baseSpellings[2]} {
+			a := API{Base: b, Ops: ops}
+			pre := ""
+			for _, bs := range b.Segs {
+				pre += "/" + bs
+			}
+			var reqs []Req
+			for _, v := range vals {
+				for _, first := range []string{"f", "g", "h"} {
+					for _, m := range []string{"GET", "PUT", "post"} {
+						reqs = append(reqs, Req{Method: m, Target: atomsOf(pre + "/" + first + "/" + v)})
+					}
+				}
+				reqs = append(reqs, Req{Method: "GET", Target: atomsOf(pre + "/f/" + v + "/x/1")})
+			}
+			for k := 0; k < 60; k++ {
+				reqs = append(reqs, randomReq(c, a))
+			}
+			for vi, via := range []string{"routes", "api", "server"} {
+				c.Case(debugOn(descriptor(a, via, reqs, nil, 0, nil), (bi+vi)%2 == 0))
+			}
+		}
+	}
+
 	// (vii) operations next to the documentation paths, through the full API handler: templates under <basePath>/docs and
 	// under /swagger.json stay reachable; requests at exactly <basePath>/docs and /swagger.json are answered by the docs
 	// middlewares (named deviation DocsShadow, the subject of C20) and are not judged here
@@ -857,7 +951,19 @@ func randomReq(c *drv.Ctx, a API) Req {
 		}
 	}
 	for _, s := range o.Segs {
-		if s.Param {
+		if len(s.Comp) > 0 {
+			var t Target
+			for _, p := range s.Comp {
+				if p.Param {
+					if r.Intn(6) > 0 {
+						t = append(t, randText(c)...)
+					}
+				} else if r.Intn(6) > 0 {
+					t = append(t, atomsOf(p.S)...)
+				}
+			}
+			segs = append(segs, t)
+		} else if s.Param {
 			segs = append(segs, append(atomsOf(s.S), randText(c)...))
 		} else if r.Intn(25) == 0 && len(s.S) > 0 {
 			// the literal with one byte escaped: does not instantiate the literal textually
